@@ -3,7 +3,7 @@
 # (1) suite passes with the change, (2) demo fails with it, (3) demo passes without it.
 # Toggles with git apply / git apply -R (the worktrees share one stash, so git stash is not safe in parallel).
 set -u
-ID="$1"; W=/tmp/mut_$ID; O=/tmp/mut_${ID}_out
+ID="$1"; W=${SEEDROOT:-/tmp/mut}_$ID; O=${SEEDROOT:-/tmp/mut}_${ID}_out
 cd "$W" || exit 2
 export CARGO_TARGET_DIR="$W/target"
 R="$O/confirm.txt"; : > "$R"
